@@ -244,8 +244,10 @@ pub fn run(ctx: &mut Ctx, rep: &mut Report) {
         for (v, f) in [("r:link4", "link5"), ("r:link3", "link4"), ("r:link2", "link3"), ("r:link1", "link2"), ("v0", "link1")] {
             guard = xor(matchv(sc("i"), lit(v), call(a.clone(), "svc", f, vec![], stream("$s"))), guard);
         }
-        let body = seqs(vec![guard, call(a.clone(), "obs", "visit_1", vec![sc("i")], Out::None), next("i")]);
-        let script = seq(ap(lit("v0"), "$s"), fold_stream("$s", "i", body, None));
+        // (no other call in the body: a second pending call would trigger one more run, in which the value missed by a broken
+        //  cursor is replayed from the previous data and visited after all; the chain calls themselves are the evidence)
+        let body = seqs(vec![guard, next("i")]);
+        let script = seq(call(a.clone(), "svc", "echo_0", vec![lit("v0")], stream("$s")), fold_stream("$s", "i", body, None));
         for round in 0..(if ctx.thorough { 10u64 } else { 3 }) {
             let mut net = Net::new(&script.text(), &peers, &format!("c13-chain-{round}"));
             let mut r2 = Rng::new(ctx.seed ^ 0xC13C ^ (round * 104729));
@@ -260,9 +262,9 @@ pub fn run(ctx: &mut Ctx, rep: &mut Report) {
             corr.history(ctx, rep, &net, &["code", "trace", "requests"]);
             // every link must have been visited: six values v0, r:link1 .. r:link5
             let visited: std::collections::BTreeSet<String> = net.log.iter().flat_map(|st| crate::host::decode_requests(&st.outcome.call_requests).unwrap_or_default().into_values())
-                .filter(|r| r.service_id == "obs").map(|r| serde_json::to_string(&crate::sim::decode_args(&r)).unwrap_or_default()).collect();
-            if visited.len() != 6 {
-                rep.oracle_fail(json!({"why": format!("recursive chain on one peer: 6 values are appended one after another (each by the visit of the previous one), the fold body was invoked for {} of them: {:?}", visited.len(), visited),
+                .filter(|r| r.function_name.starts_with("link")).map(|r| r.function_name.clone()).collect();
+            if visited.len() != 5 {
+                rep.oracle_fail(json!({"why": format!("recursive chain on one peer: every value appended while the fold runs must be visited, and the visit of value n requests link n+1; of the 5 links only {} were requested: {:?} (a value was appended to $s but the fold never visited it)", visited.len(), visited),
                     "input": crate::props::hist::step_json(&net, net.log.last().unwrap()), "history": history_json(&net), "scenario": "c13 directed chain"}));
                 break;
             }
